@@ -234,6 +234,124 @@ def run(ctx):
     compare_model(s, pending, ctx)
     streams = [s]
 
+    # vendor lines (miniVidas, Spotchem) are converted by adapters looked up per unit: the same line may arrive on several
+    # connections at the same time, in the middle of another connection's transfer.  Implementation served alone vs.
+    # interleaved (the Lean model of the interleaving has no vendor hook).
+    v = Stream("with-vendor-lines")
+    from harness.props import C18
+
+    class NoModel(object):
+        driver_ok = False
+    for _ in range(1500 if ctx.thorough else 200):
+        pool = []
+        while len(pool) < 2:
+            line, tags = C18.mini_line(r)
+            if "td" in tags and "tt" in tags:
+                pool.append(line)
+        pool.append(C18.spot_line(r)[0])
+        k = r.choice([2, 2, 3])
+        scripts = []
+        for _c in range(k):
+            sc = conn_script(r)
+            for _j in range(r.choice([1, 1, 2])):
+                sc.insert(r.randrange(0, len(sc) + 1), ("r", r.choice(pool)))
+            # nothing after a disconnect
+            if ("l",) in sc:
+                sc = sc[:sc.index(("l",)) + 1]
+            scripts.append(sc)
+        events = timed(merge_random(r, scripts), r)
+        check_case(v, r.choice(["astm", "lis2a"]), k, events, NoModel(), {"nontrivial": True})
+    streams.append(v)
+
+    # connections served by the protocol objects the server itself creates: the real server.main() runs in-process
+    # (harness/servermain.py) and its protocol factory is played with connections that open, stall until the inactivity
+    # timeout closes them, disconnect, and open again later, overlapping in time
+    sf = Stream("server-factory")
+    from harness import servermain
+    for _ in range(400 if ctx.thorough else 50):
+        k = r.choice([3, 4, 6])
+        fmt = r.choice(["astm", "lis2a"])
+        scripts = []
+        for _c in range(k):
+            sc = conn_script(r)
+            cut = [i for i, e_ in enumerate(sc) if e_[0] in ("stall", "l")]
+            scripts.append(sc[:cut[0] + 1] if cut else sc)
+        # strictly increasing global clock; a connection opens just before its first unit; some connections start
+        # only after others have been closed by the timeout
+        t = 0
+        plan = []            # (t, c, action)
+        per = {c: [] for c in range(k)}
+        order = merge_random(r, scripts)
+        started = set()
+        last_seen = {}
+        for c, e_ in order:
+            t += r.choice([1, 2, 3])
+            if c in last_seen and t - last_seen[c] == 15:
+                t += 1            # a unit arriving exactly when the timer is due is scheduler dependent (excluded)
+            if c not in started:
+                started.add(c)
+                if r.random() < 0.4:
+                    t += 25                      # earlier stalled connections are closed by now
+                plan.append((t - 0.5, c, ("open",)))
+            last_seen[c] = t
+            if e_[0] == "stall":
+                per[c].append(("i", None))
+            elif e_[0] == "l":
+                plan.append((t, c, ("lost",)))
+                per[c].append(("l", t))
+            else:
+                plan.append((t, c, ("data", e_[1])))
+                per[c].append(("r", t, e_[1]))
+        res = servermain.run_server_main(["-m", fmt], sorted(plan, key=lambda x: x[0]), settle=40)
+        case = {"format": fmt, "connections": k, "plan": [[t_, c, a[0], a[1].hex() if len(a) > 1 else ""] for t_, c, a in sorted(plan, key=lambda x: x[0])]}
+        sf.case(case, nontrivial=True)
+        for c in range(k):
+            p_t = res["conns"].get(c)
+            if p_t is None:
+                continue
+            tr = p_t[1]
+            # the same connection served alone by a protocol object of its own
+            q = impl.ListQueue()
+            cn = impl.Conn(fmt=fmt, queue=q, timeout=None, peer=("10.0.0.%d" % (c + 1), 4000 + c))
+            t_open = [t_ for t_, cc, a in plan if cc == c and a[0] == "open"][0]
+            cn.loop.now = t_open
+            for h in cn.loop.handles:              # the timer armed by connection_made starts at the opening time
+                h._when += t_open
+            exp_replies, exp_close = [], None
+            for e_ in per[c]:
+                if e_[0] == "i":
+                    fired = cn.loop.advance(10 ** 6)
+                    exp_close = fired[0] if fired else None
+                    break
+                fired = cn.loop.advance(e_[1])
+                if fired:
+                    exp_close = fired[0]
+                    break
+                if e_[0] == "r":
+                    ob = cn.event(("d", e_[2]))
+                    exp_replies.append((e_[2], ob["writes"]))
+                    if ob["closes"]:
+                        break
+                else:
+                    cn.event(("L",))
+                    break
+            got_replies = getattr(tr, "replies", [])[:len(exp_replies)]
+            n_got = len(getattr(tr, "replies", []))
+            if [(d, list(w)) for d, w in got_replies] != [(d, list(w)) for d, w in exp_replies] or n_got != len(exp_replies):
+                sf.fail(dict(case, connection=c, got=[[d.hex(), [x.hex() for x in w]] for d, w in getattr(tr, "replies", [])][:12],
+                             alone=[[d.hex(), [x.hex() for x in w]] for d, w in exp_replies][:12]),
+                        "connection %d gets other replies from the server's protocol object than when served alone" % c,
+                        "server-factory/replies")
+                break
+            got_close = tr.close_times[0] if getattr(tr, "close_times", []) else None
+            if exp_close is not None and got_close != exp_close:
+                sf.fail(dict(case, connection=c, closed_at=got_close, alone_closed_at=exp_close),
+                        "connection %d is closed by the timer at %s, alone at %s" % (c, got_close, exp_close),
+                        "server-factory/timer")
+                break
+        # deliveries: nothing to compare on disk here (no -o): the queue is consumed by the server's own consumer
+    streams.append(sf)
+
     # exhaustive merge orders of short scripts
     e = Stream("all-merge-orders")
     pending = []
